@@ -245,7 +245,7 @@ fn exhaustive_c06(thorough: bool) -> Vec<Scenario> {
 fn exhaustive_c10(thorough: bool) -> Vec<Scenario> {
 	let mut out = vec![];
 	// all mixes of up to `n` controls over {normal marker, high marker, urgent marker, to_wait, start, stop}
-	let alpha = vec![Op::Run, Op::MarkerPrio(1), Op::MarkerPrio(2), Op::ToWait, Op::Start, Op::Stop, Op::MarkerPrio(0)];
+	let alpha = vec![Op::Run, Op::MarkerPrio(1), Op::MarkerPrio(2), Op::ToWait, Op::Start, Op::Stop, Op::MarkerPrio(0), Op::RawNextEnding];
 	let seqs = sequences(&alpha, if thorough { 5 } else { 4 });
 	for (i, seq) in seqs.iter().enumerate() {
 		// (a) burst hits an idle job task; (b) enqueued behind a gate, then released; (c) with an armed grace timer
@@ -344,7 +344,9 @@ pub fn random(prop: &str, rng: &mut Rng, thorough: bool) -> Scenario {
 		Op::MarkerPrio(1),
 		Op::MarkerPrio(2),
 		Op::SetErrH(1),
+		Op::SetErrH(2),
 		Op::UnsetErrH,
+		Op::RawNextEnding,
 		Op::Gate,
 		Op::Signal(0),
 		Op::Signal(9),
